@@ -1,1 +1,2 @@
 pub mod alloc;
+pub mod net;
